@@ -1,12 +1,12 @@
 (** Executable top level used by the correspondence check: run the model on a harness case and produce every
     observable as canonical lines (a line = list of byte-string fields). *)
 From GV Require Import Base.Str Base.Quote Base.Gerr Base.Sort Regex.Re Model.Env Model.Input Model.Merge Model.Imports
-  Model.Token Model.Compile Model.Validate Model.OutVal Model.Runner Gen.EnvGen Corr.Obs.
+  Model.Token Model.Compile Model.Validate Model.OutVal Model.Runner Model.Render Gen.EnvGen Corr.Obs.
 From Coq Require Import Uint63.
 
 Definition E := the_env.
 
-Record case := { c_B : str; c_flags : flags; c_world : world; c_outfile : str }.
+Record case := { c_B : str; c_flags : flags; c_world : world; c_outfile : str; c_build_info : str }.
 
 Definition line := list str.
 Definition jl (l : list str) : str := join (s ",") l.
@@ -62,6 +62,16 @@ Definition observe (c : case) : list line :=
    | Ok oc => [s "front"] :: (show_output (x_output (oc_state oc)) ++ show_imports (cs_imports (x_cst (oc_state oc))))
    | Panic _ => []
    end).
+
+(** the text handed to go/format when the run gets that far (the harness pipes it through the real formatter and
+    compares the result with the bytes of the -o file) *)
+Definition render_text (c : case) : list string :=
+  (match run E (c_B c) (c_flags c) (c_world c) (c_outfile c) with
+   | Ok oc => if oc_wrote oc
+              then map esc (fst (render E (f_stub (c_flags c)) (c_build_info c) (x_output (oc_state oc)) (cs_imports (x_cst (oc_state oc)))))
+              else []
+   | Panic _ => []
+   end) ++ ["====="%string].
 
 (** printable form, one string per line, plus an end marker *)
 Definition sep : string := "\|"%string.
